@@ -132,7 +132,16 @@ def pipeline(ctx, genmodule, suite, judgemodule, judgecfg, parts, unit, sample, 
         for z in (zones if not batch[0][0]["group"] else ()):
             ofz = ctx.path("obs_%s_z%d.ndjson" % (names, z))
             t0 = time.time()
-            ctx.drive(suite, cf, ofz, env={"VERIF_C10_ZONE_MIN": str(z)})
+            cfz = ctx.path("cases_%s_z%d.ndjson" % (names, z))      # the zone travels in the case (a replay needs no environment)
+            with open(cf, encoding="utf-8") as g, open(cfz, "w", encoding="utf-8") as out:
+                for line in g:
+                    c = json.loads(line)
+                    if isinstance(c, str):
+                        c = json.loads(c)
+                    c["zmin"] = str(z)
+                    out.write(json.dumps(c, ensure_ascii=False) + "\n")
+            ctx.drive(suite, cfz, ofz)
+            os.remove(cfz)
             vs = pjudge(ctx, judgemodule, judgecfg(batch[0][0]["group"]), ofz, names + "_z%d" % z, parts=4 if ctx.quick else 8)
             ctx.note("%s under zone %+d min: %d cases (%.0fs; %d not ok)" % (names, z, ctx.count_lines(ofz), time.time() - t0, len(vs)))
         # C18: the same histories once more on a statement that carries tz('<zone>'), with the bases 1..3 placed around
